@@ -128,7 +128,8 @@ inductive Deliver where
   | interest
   | dataTok (thread : Nat)
   | dataDrop                -- 6-byte token naming no thread: "Invalid PIT token" - DROP
-  | dataHash                -- dispatched by name hash
+  | dataHash                -- no usable token: queued to every distinct thread among the name-prefix threads
+                            -- (prefix length 0 included; the hash values are outside the model: ≥ 1 existing thread)
 deriving DecidableEq, Repr
 
 /-- NFD's LpReassembler default `nMaxFragments` -/
